@@ -106,7 +106,9 @@ def run(ctx, impl_only=False):
             if len(cand) >= 2:
                 chosen += [list(ctx.rng.sample(cand, 2)) for _ in range(3)]
             for ps in chosen:
-                for mode in ('exclude', 'regex', 'include'):
+                for mode in ('exclude', 'regex', 'include', 'mixed'):
+                    if mode == 'mixed' and len(ps) < 2:
+                        continue          # one path excluded literally, the other by regex, in the same call
                     if mode == 'include' and not all(strk[p] and '["' not in p for p in ps):
                         ctx.count('out_of_domain:include_nonstring_key'); continue
                     case = {'t1': repr(t1), 't2': repr(t2), 'zip': zip_, 'mode': mode, 'paths': ps}
@@ -117,6 +119,10 @@ def run(ctx, impl_only=False):
                         want = [e for e in full if not any(entry_path(e) is not None and at_or_below(entry_path(e), p) for p in ps)]
                     elif mode == 'regex':
                         kw['exclude_regex_paths'] = ['^' + re.escape(p) + r'(\[|$)' for p in ps]
+                        want = [e for e in full if not any(entry_path(e) is not None and at_or_below(entry_path(e), p) for p in ps)]
+                    elif mode == 'mixed':
+                        kw['exclude_paths'] = [ps[0]]
+                        kw['exclude_regex_paths'] = ['^' + re.escape(p) + r'(\[|$)' for p in ps[1:]]
                         want = [e for e in full if not any(entry_path(e) is not None and at_or_below(entry_path(e), p) for p in ps)]
                     else:
                         kw['include_paths'] = list(ps)
@@ -138,8 +144,8 @@ def run(ctx, impl_only=False):
                             mode, len(missing), len(extra), entry_path((missing + extra)[0])))
                     if not impl_only and FAM.in_universe(t1, t2):
                         try:
-                            ex = ps if mode == 'exclude' else []
-                            rx = ps if mode == 'regex' else []
+                            ex = ps if mode == 'exclude' else (ps[:1] if mode == 'mixed' else [])
+                            rx = ps if mode == 'regex' else (ps[1:] if mode == 'mixed' else [])
                             inc = ps if mode == 'include' else []
                             lines.append(diffx_line(t1, t2, zip_, 2, ex, rx, inc))
                             metas.append((case, ('{}' if not got else ' '.join(got)) + ' OPS ' + ' '.join(DF.canon_ops(dd))))
